@@ -297,6 +297,72 @@ fn check_fasta(c: &Case, ctx: &Ctx) -> Outcome {
     }
 }
 
+// ---- wide and long tables: sample and row counts on block boundaries ----
+
+#[derive(Clone, Debug, Serialize, Deserialize)]
+pub struct BigCase {
+    pub wide: bool,
+    pub n_sel: u16,
+    pub rows_sel: u16,
+    pub salt: u64,
+    pub stride: u16,
+    pub pgap: u8,
+    pub pamb: u8,
+    pub flags: Flags,
+    pub via_cli: bool,
+}
+
+fn big_strategy() -> BoxedStrategy<BigCase> {
+    (any::<bool>(), any::<u16>(), any::<u16>(), any::<u64>(), any::<u16>(), 0u8..40, 0u8..30, flags_strategy(), prop::bool::weighted(0.25))
+        .prop_map(|(wide, n_sel, rows_sel, salt, stride, pgap, pamb, flags, via_cli)| BigCase { wide, n_sel, rows_sel, salt, stride, pgap, pamb, flags, via_cli })
+        .boxed()
+}
+
+fn big_dims(c: &BigCase) -> (usize, usize, usize) {
+    const ROWS: [usize; 9] = [255, 256, 257, 1023, 1024, 1025, 2047, 2048, 2049];
+    (if c.wide { 35 } else { 17 }, BOUNDARY_SAMPLES[crate::gen::idx(c.n_sel, BOUNDARY_SAMPLES.len())], ROWS[crate::gen::idx(c.rows_sel, ROWS.len())])
+}
+
+fn check_big(c: &BigCase, ctx: &Ctx) -> Outcome {
+    let (k, n, rows) = big_dims(c);
+    let t = big_symbol_table(k, n, rows, c.salt, c.pgap, c.pamb, c.stride);
+    let sp = spec(&c.flags, n);
+    let r: Result<(usize, usize), Outcome> = (|| {
+        let aln = if c.via_cli {
+            let d = ctx.case_dir();
+            let res = if c.wide { save_table::<u128>(&t, k, false, &d.join("t.skf"), false) } else { save_table::<u64>(&t, k, false, &d.join("t.skf"), false) };
+            res.map_err(Outcome::Infra)?;
+            let mut args: Vec<String> = vec!["align".into()];
+            args.extend(align_args(&c.flags, n));
+            args.push("t.skf".into());
+            let argv: Vec<&str> = args.iter().map(|s| s.as_str()).collect();
+            let o = run_ska(ctx, &d, &argv);
+            let res = must_ok(&o, &format!("ska {}", args.join(" "))).map(|_| model::parse_fasta(&o.out_str()));
+            ctx.done(&d);
+            res?
+        } else if c.wide {
+            inproc_align::<u128>(&t, k, false, &c.flags).map_err(Outcome::Fail)?
+        } else {
+            inproc_align::<u64>(&t, k, false, &c.flags).map_err(Outcome::Fail)?
+        };
+        compare_align(&aln, &t, &sp).map_err(Outcome::Fail)
+    })();
+    match r {
+        Err(Outcome::Fail(m)) => Outcome::Fail(format!("k={k} table of {n} samples x {rows} rows (salt {}, gaps {}%, codes {}%), flags {:?} (threshold {}), via_cli={}: {m}", c.salt, c.pgap, c.pamb, c.flags, sp.min_count, c.via_cli)),
+        Err(o) => o,
+        Ok((kept, masked)) => {
+            let removed = rows - kept;
+            let mut cl: Vec<&'static str> = vec![];
+            if n % 8 != 0 { cl.push("samples_not_multiple_of_8"); }
+            if rows % 1024 == 0 || rows % 256 == 0 { cl.push("rows_on_block_size"); }
+            if c.via_cli { cl.push("cli"); }
+            pass((removed > 0 && kept > 0) || masked > 0, key_of(&(k, n, rows, c.salt, c.pgap, c.pamb, &c.flags, c.via_cli)), cl)
+        }
+    }
+}
+
+const BIG_RULE: &str = "generated: tables of 8..200 samples (counts on and next to 8,16,32,64,128) x 255..2049 rows (on and next to 256,1024,2048), k=17 (64-bit) or k=35 (128-bit), written through the public API; rows constant, constant with gaps, constant except for one sample at any column (also the last ones), two alleles split at a column, or random symbols with generated gap / ambiguity-code densities; all filter flags and min-freq selectors of the inproc stage; a quarter of the cases through ska align on the saved file. Oracle: multiset of emitted columns == model filter, names in order. Non-trivial: the filter removes and keeps rows, or masks a symbol.";
+
 const RULE: &str = "generated: arbitrary symbol tables (1-12 samples, 1-60 rows over ACGT, 11 ambiguity codes and '-', per-case densities, constant and constant-plus-gap rows, each row >=1 non-gap) built through the public API; 4 filters x ambig-as-missing x ambig-mask x no-gap-only-sites; min-freq in {0,1,(j-1/2)/n,m/8}; plus a second, stricter setting. Oracle: multiset of emitted columns == model filter (threshold max(1,ceil(f n))), names in order, equal lengths; stricter output is a sub-multiset of the laxer. Non-trivial: the filter removes >=1 row and keeps >=1, or masks >=1 symbol in a kept row; distinct by (flags, table).";
 
 fn show(c: &Case) -> serde_json::Value {
@@ -308,6 +374,7 @@ fn stages(tier: Tier) -> Vec<Box<dyn Stage>> {
     vec![
         gen_stage_show("inproc", RULE, tier.pick(24_000, 400_000), 1500, case_strategy, |c, ctx| check(c, ctx, false), show),
         gen_stage_show("cli", RULE, tier.pick(1200, 16_000), 200, case_strategy, |c, ctx| check(c, ctx, true), show),
+        gen_stage_show("wide_and_long", BIG_RULE, tier.pick(480, 8000), 30, big_strategy, check_big, |c| { let (k, n, rows) = big_dims(c); json!({"k": k, "samples": n, "rows": rows, "salt": c.salt, "flags": c.flags, "via_cli": c.via_cli}) }),
         gen_stage_show("built_from_fasta", "the same generated tables (at most 24 rows) reached through FASTA: for every cell one record L.x.R per base x of the cell's code set, ska build --single-strand; the built table must equal the intended one (nk --full-info) and ska align with the generated flags must emit the model's columns. Non-trivial as above.", tier.pick(800, 10_000), 150, case_strategy, check_fasta, show),
     ]
 }
